@@ -211,6 +211,9 @@ func (obj *Flavor) inheritFlavor(cf *Flavor) {
 			obj.keywords[k] = v
 		}
 	}
+	for k := range cf.initable {
+		obj.initable[k] = true
+	}
 	for k, im := range cf.methods {
 		for _, ic := range im.Combinations {
 			if ic.From == &vanilla && cf != &vanilla {
